@@ -47,6 +47,10 @@ def sanitized(F, fn, op, depth=0, seen=None, elem=None):
                     for a in t[2][:1]: probs += sanitized(F, o.fn, a, depth + 1, seen, elem)
                 continue
             if c.endswith("Vec::<T>::new") or c.endswith("Vec::<T, A>::new"): continue
+            g_ = F.fn(c)
+            if g_ is not None and c.startswith("crate::version::zerv::components::") and depth < 8:
+                # a private helper / a closure called directly (`labelled("major")`): what it returns must be sanitised
+                probs += sanitized(F, g_, ["cp", [0]], depth + 1, seen, elem); continue
             probs.append("value produced by %s in %s (not the sanitiser)" % (c, o.fn.path.replace("crate::", "")))
         elif o.kind == "agg":
             rv = mir.rv_at(o.fn, *o.data); kd = rv[1]
@@ -78,8 +82,8 @@ def check(F, rep, tier):
     rep.fn_seen(*san.san_fns(F).values())
     san.char_class_guard(F, rep, "R01.1")
     # ---- R01.2 must-sanitise -------------------------------------------------------------
-    targets = [("crate::version::zerv::components::Var::resolve_value", 19), ("crate::version::zerv::components::Component::resolve_value", 2),
-               ("crate::version::zerv::components::Var::resolve_expanded_values_with_key_sanitizer", 18), ("crate::version::zerv::components::Var::resolve_parts_with_value", 0),
+    targets = [("crate::version::zerv::components::Var::resolve_value", 1), ("crate::version::zerv::components::Component::resolve_value", 1),
+               ("crate::version::zerv::components::Var::resolve_expanded_values_with_key_sanitizer", 1), ("crate::version::zerv::components::Var::resolve_parts_with_value", 0),
                ("crate::version::zerv::components::Component::resolve_expanded_values", 0), ("crate::version::zerv::components::Var::resolve_expanded_values", 0)]
     n_san = 0
     for path, floor in targets:
@@ -93,7 +97,7 @@ def check(F, rep, tier):
                 probs += sanitized(F, f, t[2][1])
             elif (mir.callee(t) or "").endswith("Extend<T>>::extend") or (mir.callee(t) or "").endswith("Vec::<T, A>::extend"):
                 probs += sanitized(F, f, t[2][1])          # `parts.extend(option)`: what is appended must be sanitised too
-        k = sum(1 for g in [f] + F.children(path) for bi, t in g.calls() if (mir.callee(t) or "") == SANITIZE)
+        k = sum(1 for g in [mir.inlined(F, f, depth=2, ok=lambda F_, c_, cp, g_: g_ is not None and g_.kind != "closure" and cp.startswith("crate::version::zerv::components::"))] + F.children(path) for bi, t in g.calls() if (mir.callee(t) or "") == SANITIZE)
         n_san += k
         if probs:
             for pr in sorted(set(probs)):
@@ -117,8 +121,16 @@ def check(F, rep, tier):
         fs = F.find(s)
         if rep.anchor("R01.3", s, fs): froms.append(fs[0])
     reach = cg.closure([f.path for f in froms], generic=False)
-    allowed_fn = lambda p: (p.startswith("crate::version::zerv::components::Var::resolve_value") or "::ZervVars::get_" in p or "ZervVars::derive_short_hash" in p
-                            or p.startswith("<crate::version::zerv::vars::ZervVars as ") or "vars::_::<impl" in p)
+    base_allowed = lambda p: (p.startswith("crate::version::zerv::components::Var::resolve_value") or "::ZervVars::get_" in p or "ZervVars::derive_short_hash" in p
+                              or p.startswith("<crate::version::zerv::vars::ZervVars as ") or "vars::_::<impl" in p)
+    def allowed_fn(p, depth=0):
+        """the sanitising resolver itself, or a private helper of its module that only it (transitively) calls: what such a
+        helper returns is covered by R01.2 at the resolver (`resolve_raw_value(..).map(|v| sanitizer.sanitize(&v))`)"""
+        if base_allowed(p): return True
+        if depth > 3 or not p.startswith("crate::version::zerv::components::"): return False
+        owner = p.split("::{closure")[0]
+        callers = {g.path.split("::{closure")[0] for g, b in cg.sites.get(owner, [])}
+        return bool(callers) and all(c == owner or allowed_fn(c, depth + 1) for c in callers)
     n_reads = 0
     for p in sorted(reach):
         f = F.fns.get(p)
